@@ -120,6 +120,21 @@ CLAIMED = {
         design_ref="DESIGN.md §6 C12",
         note="Trusted: Coq kernel + vm_compute; hand-written model tied by differential testing; Q models f32.",
         technique="Coq proof (scalar lemmas by lra/nra/field lifted over steps) + model/impl correspondence + oracle search"),
+    "C13": dict(
+        text="Machine-checked theorems for every component list with non-negative values (zero or >= 0.01 kWh), k_exp = 0, "
+             "both load-matching modes and every factor set with the regulatory structure reg_set (decided by reg_setb, "
+             "evaluated in Coq on the four prepared location sets dumped from the compiled code on every run): the "
+             "reported primary energy has ren >= 0, nren >= 0, co2 >= 0 — including buildings with cogeneration, by a "
+             "cross-carrier argument showing that the resources taken out for exported cogenerated electricity never "
+             "exceed the weighted fuel (needs the annual-ratio cogeneration factor, fix 55df7f9) — hence RER = "
+             "ren/(ren+nren) lies in [0,1] when the total is positive and is 0 when it is zero; RER_nrb <= RER; "
+             "RER_onst >= 0; the full nesting RER_onst <= RER_nrb <= RER for every building that exports no electricity. "
+             "With exported electricity the nesting fails (C13_nested_refuted: RER_onst = 2), recorded as a known finding. "
+             "The proofs go through a closed form of the step A / step B weighted energy of a carrier under regular "
+             "factor sets (Proofs/ClosedForm.v, RerFacts.v).",
+        design_ref="DESIGN.md §6 C13",
+        note="Trusted: Coq kernel + vm_compute; model tied by differential testing; reg_set of user RED1/RED2 variants relies on non-negative user values; one known finding.",
+        technique="Coq proof (closed form of weighted energy, sum exchange over carriers, nra/lra) + refutation witness + correspondence + oracle"),
 }
 
 PENDING_REASON = "not claimed yet in this round: model/theorems for this property are still being built (see DESIGN.md §10 order of work)"
